@@ -1,5 +1,5 @@
 import LzmaVerif.Model.XzStrict
-import LzmaVerif.Proofs.Xz
+import LzmaVerif.Proofs.XzForged
 /-!
 # Interoperability: everything the XZ writer model emits is accepted by the strict decoder
 -/
@@ -25,7 +25,7 @@ theorem decodeBlockBody_cb (chk : Check) (h : BlockHeader) (cb cb' : Nat) (inp :
 
 theorem decodeBlockBody_len (chk : Check) (h : BlockHeader) (cb : Nat) (inp : List Nat) (cap : Nat)
     (blk : Block) (rest : List Nat) (hd : decodeBlockBody chk h cb inp cap = .ok blk rest) :
-    rest.length ≤ inp.length ∧ (cb + (inp.length - rest.length)) % 4 = 0 := by
+    rest.length ≤ inp.length ∧ (cb + (inp.length - rest.length)) % 4 = 0 ∧ blk.header = h := by
   unfold decodeBlockBody at hd
   split at hd
   · cases hd
@@ -45,16 +45,20 @@ theorem decodeBlockBody_len (chk : Check) (h : BlockHeader) (cb : Nat) (inp : Li
           · rename_i stored rest2 hT2
             split at hd
             · cases hd
-            · injection hd with h1 h2
-              subst h2
-              obtain ⟨e1, l1⟩ := takeN_ok hT
-              obtain ⟨e2, l2⟩ := takeN_ok hT2
-              have hl : inp.length = r.consumed + (pad.length + (stored.length + rest2.length)) := by
-                have := congrArg List.length (List.take_append_drop r.consumed inp)
-                rw [List.length_append, e1, List.length_append, e2, List.length_append, List.length_take] at this
-                omega
-              have := size_mod4 chk
-              omega
+            · split at hd
+              · cases hd
+              · split at hd
+                · cases hd
+                · injection hd with h1 h2
+                  rw [← h2, ← h1]
+                  obtain ⟨e1, l1⟩ := takeN_ok hT
+                  obtain ⟨e2, l2⟩ := takeN_ok hT2
+                  have hl : inp.length = r.consumed + (pad.length + (stored.length + rest2.length)) := by
+                    have := congrArg List.length (List.take_append_drop r.consumed inp)
+                    rw [List.length_append, e1, List.length_append, e2, List.length_append, List.length_take] at this
+                    omega
+                  have := size_mod4 chk
+                  refine ⟨by omega, by omega, rfl⟩
 
 theorem parseFlags_len (inp : List Nat) (c : Check) (rest : List Nat) (h : parseFlags inp = .ok (c, rest)) :
     inp.length = 6 + rest.length := by
@@ -202,11 +206,115 @@ theorem parseBlockHeader_len (inp : List Nat) (h : BlockHeader) (inp' : List Nat
         repeat' (split at hp <;> try cases hp)
         all_goals (subst e1; simp only [List.length_cons, List.length_append]; omega)
 
+/-! ### the `size` the reader computes for an Index is the length of its canonical serialisation -/
+
+theorem parseReaderAux_pos : ∀ (fuel : Nat) (data : List Nat) (shift acc n v k : Nat),
+    XzInt.parseReaderAux fuel data shift acc n = .ok v k → n + 1 ≤ k ∧ k ≤ n + data.length := by
+  intro fuel
+  induction fuel with
+  | zero => intro data shift acc n v k h; simp [XzInt.parseReaderAux] at h
+  | succ fuel ih =>
+    intro data shift acc n v k h
+    cases data with
+    | nil => simp [XzInt.parseReaderAux] at h
+    | cons b bs =>
+      simp only [XzInt.parseReaderAux] at h
+      split at h
+      · cases h
+      · split at h
+        · injection h with h1 h2
+          simp only [List.length_cons]; omega
+        · have := ih _ _ _ _ _ _ h
+          simp only [List.length_cons]; omega
+
+theorem mbReader_len (inp : List Nat) (v : Nat) (rest : List Nat) (h : mbReader inp = .ok (v, rest)) :
+    rest.length < inp.length := by
+  unfold mbReader at h
+  split at h
+  · rename_i v' k hp
+    injection h with h
+    injection h with h1 h2
+    have := parseReaderAux_pos _ _ _ _ _ _ _ hp
+    rw [← h2, List.length_drop]
+    omega
+  · cases h
+  · cases h
+
+theorem parseRecords_len : ∀ (fuel n : Nat) (inp : List Nat) (acc recs : List (Nat × Nat)) (rest : List Nat),
+    parseRecords fuel n inp acc = .ok (recs, rest) → inp.length < fuel → recs.length = acc.length + n := by
+  intro fuel
+  induction fuel with
+  | zero => intro n inp acc recs rest _ hl; omega
+  | succ fuel ih =>
+    intro n inp acc recs rest h hl
+    simp only [parseRecords] at h
+    split at h
+    · rename_i hn
+      injection h with h
+      injection h with h1 h2
+      rw [← h1, List.length_reverse, hn]
+      rfl
+    · rename_i hn
+      simp only [bind, Except.bind] at h
+      split at h
+      · cases h
+      · rename_i v1 hm1
+        obtain ⟨u, inp1⟩ := v1
+        simp only [] at h
+        split at h
+        · cases h
+        · rename_i v2 hm2
+          obtain ⟨s, inp2⟩ := v2
+          simp only [] at h
+          split at h
+          · cases h
+          · have l1 := mbReader_len _ _ _ hm1
+            have l2 := mbReader_len _ _ _ hm2
+            have := ih _ _ _ _ _ h (by omega)
+            rw [this, List.length_cons]
+            omega
+
+theorem parseIndex_size (inp : List Nat) (recs : List (Nat × Nat)) (isize : Nat) (rest : List Nat)
+    (h : parseIndex inp = .ok (recs, isize, rest)) : isize = (indexBytes recs).length := by
+  have hsize : (indexBytes recs).length = 1 + (mb recs.length ++ recBytes recs).length +
+      (4 - (1 + (mb recs.length ++ recBytes recs).length) % 4) % 4 + 4 := by
+    rw [indexBytes_eq]
+    simp only [List.length_cons, List.length_append, List.length_replicate, le_length]
+    omega
+  unfold parseIndex at h
+  simp only [bind, Except.bind] at h
+  split at h
+  · cases h
+  · rename_i v1 hm1
+    obtain ⟨n, inp1⟩ := v1
+    simp only [] at h
+    split at h
+    · cases h
+    · rename_i v2 hr
+      obtain ⟨recs', inp2⟩ := v2
+      have hn := parseRecords_len _ _ _ _ _ _ hr (by omega)
+      simp only [List.length_nil, Nat.zero_add] at hn
+      simp only [] at h
+      split at h
+      · cases h
+      · split at h
+        · cases h
+        · split at h
+          · cases h
+          · split at h
+            · cases h
+            · injection h with h
+              injection h with h1 h2
+              injection h2 with h2 h3
+              subst h1
+              rw [← h2, hsize, hn]
+              rfl
+
 /-! ## S2: the strict decoder accepts a subset of what the crate's reader accepts, with the same result -/
 
 theorem readBlocksS_lax (total cap : Nat) : ∀ (fuel : Nat) (chk : Check) (inp acc : List Nat) (blks : List Block)
     (recs : List (Nat × Nat)) (d : List Nat) (n : Nat) (b : List Block),
-    recs.length = blks.length → inp.length ≤ total → (total - inp.length) % 4 = 0 →
+    recs = blks.map (blockRecord chk) → inp.length ≤ total → (total - inp.length) % 4 = 0 →
     readBlocksS total fuel chk inp acc blks recs cap = .ok d n b →
     readBlocks true total fuel chk inp acc blks cap = .ok d n b := by
   intro fuel
@@ -238,7 +346,7 @@ theorem readBlocksS_lax (total cap : Nat) : ∀ (fuel : Nat) (chk : Check) (inp 
             | err e => cases h
             | ok blk rest =>
               simp only [] at h ⊢
-              obtain ⟨hb1, hb2⟩ := decodeBlockBody_len _ _ _ _ _ _ _ hB
+              obtain ⟨hb1, hb2, hb3⟩ := decodeBlockBody_len _ _ _ _ _ _ _ hB
               split at h
               · cases h
               · split at h
@@ -247,27 +355,29 @@ theorem readBlocksS_lax (total cap : Nat) : ∀ (fuel : Nat) (chk : Check) (inp 
                   · cases h
                   · rename_i hc
                     rw [if_neg hc]
-                    exact ih _ _ _ _ _ _ _ _ (by simp [hrl]) (by omega) (by omega) h
+                    exact ih _ _ _ _ _ _ _ _ (by simp [hrl, blockRecord, hb3]) (by omega) (by omega) h
       | none =>
         simp only [] at h ⊢
         generalize hI : parseIndex inp' = I at h ⊢
         cases I with
         | error e => cases h
         | ok v =>
-          obtain ⟨irecs, inp''⟩ := v
+          obtain ⟨irecs, isize, inp''⟩ := v
           simp only [] at h ⊢
+          have his := parseIndex_size _ _ _ _ hI
           split at h
           · cases h
-          · split at h
+          · rename_i hcanon
+            split at h
             · cases h
             · rename_i hrec
               split at h
               · cases h
-              · have hlen : ¬ (irecs.length ≠ blks.length) := by
-                  simp only [ne_eq, Decidable.not_not] at hrec
-                  rw [hrec, List.length_reverse, hrl]
-                  simp
-                rw [if_neg hlen]
+              · simp only [ne_eq, Decidable.not_not] at hrec hcanon
+                have hrec' : irecs = (blks.map (blockRecord chk)).reverse := by rw [hrec, hrl]
+                have hlen : ¬ (irecs.length ≠ blks.length) := by
+                  rw [hrec']; simp
+                rw [if_neg hlen, if_neg (not_not_intro hrec')]
                 generalize hF : parseFooter inp'' = F at h ⊢
                 cases F with
                 | error e => cases h
@@ -277,10 +387,17 @@ theorem readBlocksS_lax (total cap : Nat) : ∀ (fuel : Nat) (chk : Check) (inp 
                   split at h
                   · cases h
                   · rename_i hfl
-                    rw [if_neg hfl]
                     split at h
                     · cases h
                     · rename_i hbs
+                      simp only [ne_eq, Decidable.not_not] at hbs
+                      -- the size the reader computed is the number of bytes the Index occupies
+                      have hsz : (bs + 1) * 4 = isize := by
+                        have hl := congrArg List.length hcanon
+                        rw [List.length_take] at hl
+                        rw [his, ← hl]
+                        omega
+                      rw [if_neg (not_not_intro hsz), if_neg hfl]
                       simp only [not_true_eq_false, if_false]
                       generalize hN : nextStream (rest.length + 1) rest 0 = N at h ⊢
                       cases N with
@@ -293,7 +410,6 @@ theorem readBlocksS_lax (total cap : Nat) : ∀ (fuel : Nat) (chk : Check) (inp 
                           simp only [] at h ⊢
                           obtain ⟨k, hk1, hk2⟩ := nextStream_len _ _ _ _ _ hN
                           have hfl := parseFooter_len _ _ _ _ hF
-                          simp only [ne_eq, Decidable.not_not] at hbs
                           exact ih _ _ _ _ _ _ _ _ rfl (by omega) (by omega) h
 
 /-- **S2.**  Whatever the strict decoder accepts, the crate's reader (multi-stream mode) accepts with the same
@@ -464,11 +580,6 @@ def afterStreamS (total fuel : Nat) (rest acc : List Nat) (blks : List Block) (c
   | .ok none => .ok acc total blks
   | .ok (some (chk', rest')) => readBlocksS total fuel chk' rest' acc [] [] cap
 
-theorem indexBytes_len_ge (rs : List (Nat × Nat)) : 4 ≤ (indexBytes rs).length := by
-  rw [indexBytes_eq]
-  simp only [List.length_cons, List.length_append, le_length]
-  omega
-
 theorem backward_size_ok (n : Nat) (h4 : n % 4 = 0) (hge : 4 ≤ n) (hle : n ≤ 2 ^ 34) :
     (ofLe (le 4 (n / 4 - 1)) + 1) * 4 = n := by
   have : n / 4 - 1 < 256 ^ 4 := by omega
@@ -510,7 +621,7 @@ theorem readBlocksS_end (c : Check) (rs : List (Nat × Nat)) (hn : rs.length < 2
 
 /-- one whole written stream after its header -/
 theorem readBlocksS_stream (c : Check) (fs : List Filter) (hfs : FiltersOk fs)
-    (blocks : List (List Nat × List Nat)) (hb : ∀ b ∈ blocks, BlockOk fs b) (hsz : SizesOk c fs blocks)
+    (blocks : List (List Nat × List Nat)) (hb : ∀ b ∈ blocks, BlockOk fs b) (hsz : SizesOk63 c fs blocks)
     (rest acc : List Nat) (total fuel cap : Nat) (hcap : acc.length + (blocksData blocks).length ≤ cap) :
     readBlocksS total (fuel + blocks.length + 1) c (streamBody c fs blocks ++ rest) acc [] [] cap
       = if limitsOk (recsOf c fs blocks) (indexBytes (recsOf c fs blocks)).length = true then
@@ -527,7 +638,7 @@ theorem readBlocksS_stream (c : Check) (fs : List Filter) (hfs : FiltersOk fs)
 
 /-- **the strict decoder on a written stream followed by anything** -/
 theorem decodeStrict_stream (c : Check) (fs : List Filter) (hfs : FiltersOk fs)
-    (blocks : List (List Nat × List Nat)) (hb : ∀ b ∈ blocks, BlockOk fs b) (hsz : SizesOk c fs blocks)
+    (blocks : List (List Nat × List Nat)) (hb : ∀ b ∈ blocks, BlockOk fs b) (hsz : SizesOk63 c fs blocks)
     (rest : List Nat) (cap : Nat) (hcap : (blocksData blocks).length ≤ cap) :
     decodeStrict (streamBytes c fs blocks ++ rest) cap
       = if limitsOk (recsOf c fs blocks) (indexBytes (recsOf c fs blocks)).length = true then
@@ -614,9 +725,13 @@ theorem limitsOk_iff (c : Check) (fs : List Filter) (blocks : List (List Nat × 
   · rintro ⟨h1, h2, h3⟩
     exact ⟨⟨⟨recsOf_ge5 c fs blocks, by omega⟩, by omega⟩, h3⟩
 
+theorem StreamLimits.sizesOk63 {c : Check} {fs : List Filter} {blocks : List (List Nat × List Nat)}
+    (h : StreamLimits c fs blocks) : SizesOk63 c fs blocks :=
+  sizesOk63_of_length c fs blocks h.1 h.2.1
+
 theorem StreamLimits.sizesOk {c : Check} {fs : List Filter} {blocks : List (List Nat × List Nat)}
     (h : StreamLimits c fs blocks) : SizesOk c fs blocks :=
-  sizesOk_of_length c fs blocks h.1 h.2.1
+  ⟨h.sizesOk63, h.2.2⟩
 
 /-! ### Single stream -/
 
@@ -627,7 +742,8 @@ theorem afterStreamS_nil (total fuel : Nat) (acc : List Nat) (blks : List Block)
 /-- **S1 (single stream).**  Every stream the writer model emits — any check type, any admissible filter chain,
 any list of blocks whose payloads decode — is accepted by the strict decoder, with the concatenated data, the whole
 length consumed and the block list the crate's reader reports.  The hypotheses are those of `xz_roundtrip_blocks`
-with `SizesOk` strengthened to `StreamLimits` (which implies it): see `writer_overflow_rejected` for why. -/
+with `SizesOk` (63-bit fields, Index ≤ 2^34 bytes) strengthened to `StreamLimits` (which implies it; it adds
+liblzma's 2^63 limits on the whole stream): see `writer_overflow_rejected` for why. -/
 theorem writer_output_strict (c : Check) (fs : List Filter) (hfs : FiltersOk fs)
     (blocks : List (List Nat × List Nat))
     (hb : ∀ b ∈ blocks, PayloadOk (readerDict fs) b.1 (applyFilters fs b.2) ∧ unfilter fs (applyFilters fs b.2) = b.2)
@@ -635,29 +751,29 @@ theorem writer_output_strict (c : Check) (fs : List Filter) (hfs : FiltersOk fs)
     (cap : Nat) (hcap : ((blocks.map (·.2)).flatten).length ≤ cap) :
     decodeStrict (streamBytes c fs blocks) cap
       = .ok (blocks.map (·.2)).flatten (streamBytes c fs blocks).length (blocks.map (blkOf fs)).reverse := by
-  have h := decodeStrict_stream c fs hfs blocks (fun b hbm => blockOk_of fs b (hb b hbm)) hlim.sizesOk [] cap hcap
+  have h := decodeStrict_stream c fs hfs blocks (fun b hbm => blockOk_of fs b (hb b hbm)) hlim.sizesOk63 [] cap hcap
   rw [List.append_nil] at h
   rw [h, if_pos ((limitsOk_iff c fs blocks).mpr hlim), afterStreamS_nil]
   rfl
 
-/-- **The writer's output is rejected when the limits are exceeded** (under the hypotheses of
-`xz_roundtrip_blocks`, for which the crate's own reader accepts the stream): the precise boundary of S1. -/
+/-- **The writer's output is rejected when the limits are exceeded**: the precise boundary of S1
+(for the Index limit the crate's own reader rejects the stream too: `xz_roundtrip_iff`). -/
 theorem writer_overflow_rejected (c : Check) (fs : List Filter) (hfs : FiltersOk fs)
     (blocks : List (List Nat × List Nat))
     (hb : ∀ b ∈ blocks, PayloadOk (readerDict fs) b.1 (applyFilters fs b.2) ∧ unfilter fs (applyFilters fs b.2) = b.2)
-    (hsz : SizesOk c fs blocks) (hlim : ¬ StreamLimits c fs blocks)
+    (hsz : SizesOk63 c fs blocks) (hlim : ¬ StreamLimits c fs blocks)
     (cap : Nat) (hcap : ((blocks.map (·.2)).flatten).length ≤ cap) :
     decodeStrict (streamBytes c fs blocks) cap = .err .invalidData := by
   have h := decodeStrict_stream c fs hfs blocks (fun b hbm => blockOk_of fs b (hb b hbm)) hsz [] cap hcap
   rw [List.append_nil] at h
   rw [h, if_neg (fun hl => hlim ((limitsOk_iff c fs blocks).mp hl))]
 
-/-- **S1, exact form.**  Under the hypotheses of `xz_roundtrip_blocks` (for which the crate's own reader accepts
-the stream), the strict decoder accepts the writer's output if and only if the stream respects `StreamLimits`. -/
+/-- **S1, exact form.**  Under the 63-bit hypotheses, the strict decoder accepts the writer's output if and only if
+the stream respects `StreamLimits`. -/
 theorem writer_output_strict_iff (c : Check) (fs : List Filter) (hfs : FiltersOk fs)
     (blocks : List (List Nat × List Nat))
     (hb : ∀ b ∈ blocks, PayloadOk (readerDict fs) b.1 (applyFilters fs b.2) ∧ unfilter fs (applyFilters fs b.2) = b.2)
-    (hsz : SizesOk c fs blocks) (cap : Nat) (hcap : ((blocks.map (·.2)).flatten).length ≤ cap) :
+    (hsz : SizesOk63 c fs blocks) (cap : Nat) (hcap : ((blocks.map (·.2)).flatten).length ≤ cap) :
     decodeStrict (streamBytes c fs blocks) cap
         = .ok (blocks.map (·.2)).flatten (streamBytes c fs blocks).length (blocks.map (blkOf fs)).reverse
       ↔ StreamLimits c fs blocks := by
@@ -725,7 +841,7 @@ theorem afterStreamS_cat (total cap : Nat) : ∀ (ss : List (Nat × Strm)),
     simp only [hz, if_false] at hns
     rw [afterStreamS_some _ _ _ _ _ _ _ _ hns]
     obtain ⟨f, rfl⟩ : ∃ f, fuel = f + s.blocks.length + 1 := ⟨fuel - s.blocks.length - 1, by omega⟩
-    rw [readBlocksS_stream s.c s.fs hfs s.blocks hb hsz _ acc total f cap
+    rw [readBlocksS_stream s.c s.fs hfs s.blocks hb hsz.1 _ acc total f cap
       (by simpa [Strm.data] using (by omega : acc.length + s.data.length ≤ cap)),
       if_pos ((limitsOk_iff s.c s.fs s.blocks).mpr hlim)]
     rw [ih (fun y hy => hss y (List.mem_cons_of_mem _ hy)) t _ _ f (by omega)
@@ -737,7 +853,7 @@ theorem decodeStrict_after_stream (s : Strm) (hs : s.Ok) (hl : s.Limits) (rest :
     (hcap : s.data.length ≤ cap) :
     decodeStrict (s.bytes ++ rest) cap
       = afterStreamS (s.bytes ++ rest).length ((s.bytes ++ rest).length + 1 - s.blocks.length) rest s.data s.blks cap := by
-  have h := decodeStrict_stream s.c s.fs hs.1 s.blocks hs.2.1 hs.2.2 rest cap hcap
+  have h := decodeStrict_stream s.c s.fs hs.1 s.blocks hs.2.1 hs.2.2.1 rest cap hcap
   rw [if_pos ((limitsOk_iff s.c s.fs s.blocks).mpr hl)] at h
   exact h
 
@@ -768,35 +884,11 @@ theorem writer_output_strict_concat (s₀ : Strm) (h₀ : s₀.Ok) (l₀ : s₀.
 
 /-! ### A simple sufficient condition for the Index limit -/
 
-theorem recBytes_le : ∀ (recs : List (Nat × Nat)), (∀ r ∈ recs, RecOk r) → (recBytes recs).length ≤ 18 * recs.length := by
-  intro recs
-  induction recs with
-  | nil => intro _; simp [recBytes]
-  | cons x recs ih =>
-    intro h
-    obtain ⟨_, h1, h2⟩ := h x List.mem_cons_self
-    obtain ⟨_, a2, _, _⟩ := mb_spec x.1 h1
-    obtain ⟨_, b2, _, _⟩ := mb_spec x.2 h2
-    have := ih (fun g hg => h g (List.mem_cons_of_mem _ hg))
-    simp only [recBytes, List.map_cons, List.flatten_cons, List.length_append, List.length_cons] at this ⊢
-    omega
-
-/-- at most 2^29 blocks: the Index fits (each record takes at most 18 bytes) -/
-theorem index_le_of_blocks (c : Check) (fs : List Filter) (blocks : List (List Nat × List Nat))
-    (hsz : SizesOk c fs blocks) (hn : blocks.length ≤ 2 ^ 29) :
-    (indexBytes (recsOf c fs blocks)).length ≤ 2 ^ 34 := by
-  obtain ⟨r1, r2⟩ := recsOf_ok c fs blocks hsz
-  obtain ⟨_, n2, _, _⟩ := mb_spec (recsOf c fs blocks).length (by rw [r1]; exact hsz.1)
-  have := recBytes_le _ r2
-  rw [indexBytes_eq]
-  simp only [List.length_cons, List.length_append, List.length_replicate, le_length]
-  omega
-
 /-- `StreamLimits` from the obvious bounds: stream and data shorter than 2^63 bytes, at most 2^29 blocks -/
 theorem streamLimits_of (c : Check) (fs : List Filter) (blocks : List (List Nat × List Nat))
     (h1 : (streamBytes c fs blocks).length < 2 ^ 63) (h2 : ((blocks.map (·.2)).flatten).length < 2 ^ 63)
     (hn : blocks.length ≤ 2 ^ 29) : StreamLimits c fs blocks :=
-  ⟨h1, h2, index_le_of_blocks c fs blocks (sizesOk_of_length c fs blocks h1 h2) hn⟩
+  ⟨h1, h2, indexFits_of_blocks c fs blocks (sizesOk63_of_length c fs blocks h1 h2) hn⟩
 
 /-- S1 with the size side conditions stated on lengths (cf. `xz_roundtrip'`) -/
 theorem writer_output_strict' (c : Check) (fs : List Filter) (hfs : FiltersOk fs)
@@ -809,26 +901,44 @@ theorem writer_output_strict' (c : Check) (fs : List Filter) (hfs : FiltersOk fs
       = .ok (blocks.map (·.2)).flatten (streamBytes c fs blocks).length (blocks.map (blkOf fs)).reverse :=
   writer_output_strict c fs hfs blocks hb (streamLimits_of c fs blocks hlen hdat hn) cap hcap
 
-/-! ## S3: the crate's reader is strictly laxer -/
+/-! ## S3: what laxity remains in the crate's reader
 
-/-- A 56-byte file: stream header (CRC32 check), one block (LZMA2, stored chunk holding the byte 0x41), an Index
-whose single record says Unpadded Size 21 (right) and Uncompressed Size **2** (wrong: the block holds 1 byte) with
-the Index CRC32 recomputed, and a correct footer. -/
+Since the reader fix (`finish_block_record`, `parse_index_and_footer`: Index records, Backward Size and the block
+header's size fields are compared with the decoded blocks) the crate's reader still does not enforce
+
+* the reserved bits `0x3C` of the Block Flags (`lax_not_strict_witness`),
+* the shortest form of multibyte integers, in the block header (`lax_not_strict_witness_vli`) and in the Index,
+  where it even computes padding, CRC32 and size from the re-encoded integers (`lax_not_strict_witness_index_vli`),
+* "LZMA2 only as the last filter" (a chain with an inner LZMA2 stacks two LZMA2 decoders: outside the model,
+  `.capped`), and liblzma's 2^63 limits on whole-stream sizes (unreachable).
+
+`Unpadded Size ≥ 5` and `Index ≤ 2^34` are now implied by the new comparisons.  The files below are accepted by
+`Xz.decode` and rejected by `decodeStrict` (and by `xz -t`, liblzma 5.8.2). -/
+
+/-- A 56-byte file whose only defect is the reserved Block Flags bit `0x04` (block header CRC32 recomputed). -/
 def laxWitness : List Nat :=
-  [0xfd, 0x37, 0x7a, 0x58, 0x5a, 0x00, 0x00, 0x01, 0x69, 0x22, 0xde, 0x36,      -- stream header
-   0x02, 0x00, 0x21, 0x01, 0x00, 0x00, 0x00, 0x00, 0x37, 0x27, 0x97, 0xd6,      -- block header
-   0x01, 0x00, 0x00, 0x41, 0x00, 0x00, 0x00, 0x00, 0x8b, 0x9e, 0xd9, 0xd3,      -- LZMA2, padding, CRC32 of "A"
-   0x00, 0x01, 0x15, 0x02, 0x13, 0x32, 0x3d, 0xf9,                              -- index: 1 record (21, 2)
+  [0xfd, 0x37, 0x7a, 0x58, 0x5a, 0x00, 0x00, 0x01, 0x69, 0x22, 0xde, 0x36,      -- stream header (CRC32 check)
+   0x02, 0x04, 0x21, 0x01, 0x00, 0x00, 0x00, 0x00, 0x24, 0x03, 0xd8, 0x22,      -- block header, flags = 0x04
+   0x01, 0x00, 0x00, 0x41, 0x00, 0x00, 0x00, 0x00, 0x8b, 0x9e, 0xd9, 0xd3,      -- LZMA2 (stored "A"), padding, check
+   0x00, 0x01, 0x15, 0x01, 0xa9, 0x63, 0x34, 0x60,                              -- index: 1 record (21, 1)
    0x90, 0x42, 0x99, 0x0d, 0x01, 0x00, 0x00, 0x00, 0x00, 0x01, 0x59, 0x5a]      -- footer
 
-/-- the same file with the right record (21, 1) but Backward Size 2 (= 12 bytes) instead of 1 (= 8 bytes),
-footer CRC32 recomputed -/
-def laxWitness2 : List Nat :=
+/-- A 60-byte file whose only defect is the filter id 0x21 written in two bytes (`A1 00`) in the block header. -/
+def laxWitnessVli : List Nat :=
+  [0xfd, 0x37, 0x7a, 0x58, 0x5a, 0x00, 0x00, 0x01, 0x69, 0x22, 0xde, 0x36,
+   0x03, 0x00, 0xa1, 0x00, 0x01, 0x00, 0x00, 0x00, 0x00, 0x00, 0x00, 0x00, 0xee, 0x75, 0x7b, 0x86,
+   0x01, 0x00, 0x00, 0x41, 0x00, 0x00, 0x00, 0x00, 0x8b, 0x9e, 0xd9, 0xd3,
+   0x00, 0x01, 0x19, 0x01, 0xa5, 0x2c, 0x81, 0xcc,
+   0x90, 0x42, 0x99, 0x0d, 0x01, 0x00, 0x00, 0x00, 0x00, 0x01, 0x59, 0x5a]
+
+/-- A 57-byte file whose Index writes the number of records in two bytes (`81 00`); padding, CRC32 and Backward
+Size are those of the canonical 8-byte Index, which is what the crate's reader computes. -/
+def laxWitnessIndexVli : List Nat :=
   [0xfd, 0x37, 0x7a, 0x58, 0x5a, 0x00, 0x00, 0x01, 0x69, 0x22, 0xde, 0x36,
    0x02, 0x00, 0x21, 0x01, 0x00, 0x00, 0x00, 0x00, 0x37, 0x27, 0x97, 0xd6,
    0x01, 0x00, 0x00, 0x41, 0x00, 0x00, 0x00, 0x00, 0x8b, 0x9e, 0xd9, 0xd3,
-   0x00, 0x01, 0x15, 0x01, 0xa9, 0x63, 0x34, 0x60,
-   0x3e, 0x30, 0x0d, 0x8b, 0x02, 0x00, 0x00, 0x00, 0x00, 0x01, 0x59, 0x5a]
+   0x00, 0x81, 0x00, 0x15, 0x01, 0xa9, 0x63, 0x34, 0x60,
+   0x90, 0x42, 0x99, 0x0d, 0x01, 0x00, 0x00, 0x00, 0x00, 0x01, 0x59, 0x5a]
 
 theorem out_of_result (o : Out) (d : List Nat) (n : Nat) (h : o.result? = some (d, n)) : ∃ b, o = .ok d n b := by
   cases o with
@@ -845,65 +955,60 @@ theorem out_of_err (o : Out) (e : Xz.Err) (h : o.err? = some e) : o = .err e := 
   | capped => cases h
 
 /-- **S3.**  A concrete file that the crate's reader accepts (in both modes) and the strict decoder — like
-liblzma — rejects: the Uncompressed Size in the Index record is wrong. -/
+liblzma ("Unsupported options") — rejects: a reserved Block Flags bit is set. -/
 theorem lax_not_strict_witness :
     (∃ b, Xz.decode true laxWitness 16 = .ok [0x41] 56 b) ∧ (∃ b, Xz.decode false laxWitness 16 = .ok [0x41] 56 b) ∧
-    decodeStrict laxWitness 16 = .err .invalidData :=
+    decodeStrict laxWitness 16 = .err .invalidInput :=
   ⟨out_of_result _ _ _ (by decide +kernel), out_of_result _ _ _ (by decide +kernel), out_of_err _ _ (by decide +kernel)⟩
 
-/-- a second witness: wrong Backward Size in the footer -/
-theorem lax_not_strict_witness_backward :
-    (∃ b, Xz.decode true laxWitness2 16 = .ok [0x41] 56 b) ∧ decodeStrict laxWitness2 16 = .err .invalidData :=
+/-- a non-shortest multibyte integer in the block header -/
+theorem lax_not_strict_witness_vli :
+    (∃ b, Xz.decode true laxWitnessVli 16 = .ok [0x41] 60 b) ∧ decodeStrict laxWitnessVli 16 = .err .invalidData :=
   ⟨out_of_result _ _ _ (by decide +kernel), out_of_err _ _ (by decide +kernel)⟩
+
+/-- a non-shortest multibyte integer in the Index -/
+theorem lax_not_strict_witness_index_vli :
+    (∃ b, Xz.decode true laxWitnessIndexVli 16 = .ok [0x41] 57 b) ∧
+    decodeStrict laxWitnessIndexVli 16 = .err .invalidData :=
+  ⟨out_of_result _ _ _ (by decide +kernel), out_of_err _ _ (by decide +kernel)⟩
+
+/-! ### the witnesses of the old laxity are now rejected by the reader -/
+
+/-- the former witness: Index record (21, **2**) for a block of 1 byte, Index CRC32 recomputed -/
+def forgedIndexWitness : List Nat :=
+  [0xfd, 0x37, 0x7a, 0x58, 0x5a, 0x00, 0x00, 0x01, 0x69, 0x22, 0xde, 0x36,
+   0x02, 0x00, 0x21, 0x01, 0x00, 0x00, 0x00, 0x00, 0x37, 0x27, 0x97, 0xd6,
+   0x01, 0x00, 0x00, 0x41, 0x00, 0x00, 0x00, 0x00, 0x8b, 0x9e, 0xd9, 0xd3,
+   0x00, 0x01, 0x15, 0x02, 0x13, 0x32, 0x3d, 0xf9,
+   0x90, 0x42, 0x99, 0x0d, 0x01, 0x00, 0x00, 0x00, 0x00, 0x01, 0x59, 0x5a]
+
+/-- the former witness: right record (21, 1), Backward Size 2 (= 12 bytes) instead of 1 (= 8 bytes), footer CRC32
+recomputed -/
+def forgedBackwardWitness : List Nat :=
+  [0xfd, 0x37, 0x7a, 0x58, 0x5a, 0x00, 0x00, 0x01, 0x69, 0x22, 0xde, 0x36,
+   0x02, 0x00, 0x21, 0x01, 0x00, 0x00, 0x00, 0x00, 0x37, 0x27, 0x97, 0xd6,
+   0x01, 0x00, 0x00, 0x41, 0x00, 0x00, 0x00, 0x00, 0x8b, 0x9e, 0xd9, 0xd3,
+   0x00, 0x01, 0x15, 0x01, 0xa9, 0x63, 0x34, 0x60,
+   0x3e, 0x30, 0x0d, 0x8b, 0x02, 0x00, 0x00, 0x00, 0x00, 0x01, 0x59, 0x5a]
+
+theorem forged_witnesses_rejected :
+    Xz.decode true forgedIndexWitness 16 = .err .invalidData ∧ Xz.decode false forgedIndexWitness 16 = .err .invalidData ∧
+    decodeStrict forgedIndexWitness 16 = .err .invalidData ∧
+    Xz.decode true forgedBackwardWitness 16 = .err .invalidData ∧
+    Xz.decode false forgedBackwardWitness 16 = .err .invalidData ∧
+    decodeStrict forgedBackwardWitness 16 = .err .invalidData :=
+  ⟨out_of_err _ _ (by decide +kernel), out_of_err _ _ (by decide +kernel), out_of_err _ _ (by decide +kernel),
+   out_of_err _ _ (by decide +kernel), out_of_err _ _ (by decide +kernel), out_of_err _ _ (by decide +kernel)⟩
 
 /-- the witnesses differ from a file the writer model emits (which both decoders accept) only in those fields -/
 theorem witness_base_accepted :
     streamBytes .crc32 [.lzma2 4096] [([1, 0, 0, 0x41, 0], [0x41])] =
-      laxWitness.take 39 ++ [0x01, 0xa9, 0x63, 0x34, 0x60] ++ laxWitness.drop 44 ∧
+      forgedIndexWitness.take 39 ++ [0x01, 0xa9, 0x63, 0x34, 0x60] ++ forgedIndexWitness.drop 44 ∧
     (∃ b, decodeStrict (streamBytes .crc32 [.lzma2 4096] [([1, 0, 0, 0x41, 0], [0x41])]) 16 = .ok [0x41] 56 b) :=
   ⟨by decide +kernel, out_of_result _ _ _ (by decide +kernel)⟩
 
-/-! ## The laxity of the crate's reader, in general form
-
-The crate's reader never compares the Index records with the blocks (only their number), nor the footer's
-Backward Size with the Index.  So for ANY written stream, replacing the Index by the serialisation of an arbitrary
-record list of the right length, and the Backward Size by anything, gives a file the crate's reader still accepts
-with the same result; the strict decoder rejects it as soon as a record differs. -/
-
-/-- a written stream whose Index holds the records `rs` and whose footer announces an Index of `n` bytes -/
-def forgedStream (c : Check) (fs : List Filter) (blocks : List (List Nat × List Nat)) (rs : List (Nat × Nat))
-    (n : Nat) : List Nat :=
-  streamHeaderBytes c ++ (blocksBytes c fs blocks ++ (indexBytes rs ++ (footerBytes c n ++ [])))
-
-theorem forgedStream_self (c : Check) (fs : List Filter) (blocks : List (List Nat × List Nat)) :
-    forgedStream c fs blocks (recsOf c fs blocks) (indexBytes (recsOf c fs blocks)).length = streamBytes c fs blocks := by
-  simp [forgedStream, streamBytes_eq, streamBody]
-
-theorem lax_accepts_forged (multi : Bool) (c : Check) (fs : List Filter) (hfs : FiltersOk fs)
-    (blocks : List (List Nat × List Nat))
-    (hb : ∀ b ∈ blocks, PayloadOk (readerDict fs) b.1 (applyFilters fs b.2) ∧ unfilter fs (applyFilters fs b.2) = b.2)
-    (rs : List (Nat × Nat)) (hlen : rs.length = blocks.length) (hn : rs.length < 2 ^ 63) (hrs : ∀ x ∈ rs, RecOk x)
-    (n : Nat) (cap : Nat) (hcap : ((blocks.map (·.2)).flatten).length ≤ cap) :
-    Xz.decode multi (forgedStream c fs blocks rs n) cap
-      = .ok (blocks.map (·.2)).flatten (forgedStream c fs blocks rs n).length (blocks.map (blkOf fs)).reverse := by
-  have hb' : ∀ b ∈ blocks, BlockOk fs b := fun b hbm => blockOk_of fs b (hb b hbm)
-  have hbb := blocksBytes_mod4 c fs blocks
-  unfold Xz.decode
-  unfold forgedStream
-  rw [parseStreamHeader_ok]
-  simp only []
-  generalize hT : (streamHeaderBytes c ++ (blocksBytes c fs blocks ++ (indexBytes rs ++ (footerBytes c n ++ [])))).length
-    = total
-  have htot : total = 12 + (blocksBytes c fs blocks ++ (indexBytes rs ++ (footerBytes c n ++ []))).length := by
-    rw [← hT, List.length_append, streamHeaderBytes_length]
-  have hbl : blocks.length ≤ total := by
-    rw [htot, List.length_append]; omega
-  have e : total + 2 = ((total + 1 - blocks.length) + 1) + blocks.length := by omega
-  rw [e, readBlocks_blocks multi c fs hfs total cap blocks hb' _ [] [] 12 _ htot (by decide) (by rw [List.length_nil, Nat.zero_add]; exact hcap)]
-  rw [readBlocks_end multi c rs hn hrs n [] _ _ total _ cap (by simp [hlen])]
-  cases multi with
-  | false => simp [afterStream, blocksData]
-  | true => simp [afterStream, blocksData, nextStream, pure, Except.pure]
+/-! ## Forged Index / footer: the strict decoder (general form; the reader's counterpart is
+`Xz.reader_rejects_forged_index` / `Xz.reader_rejects_wrong_backward_size` in `Proofs/XzForged.lean`) -/
 
 /-- Index + Footer with arbitrary records and an arbitrary announced length -/
 theorem readBlocksS_end_forged (c : Check) (rs : List (Nat × Nat)) (hn : rs.length < 2 ^ 63)
@@ -956,25 +1061,23 @@ theorem strict_rejects_forged (c : Check) (fs : List Filter) (hfs : FiltersOk fs
   rw [e, readBlocksS_blocks c fs hfs total cap blocks hb' _ [] [] [] _ (by rw [List.length_nil, Nat.zero_add]; exact hcap)]
   exact readBlocksS_end_forged c rs hn hrs n [] _ _ _ total _ cap (by simpa using hne)
 
-/-- **The laxity, precisely.**  Take any written stream and put ANY other list of as many (representable) records
-into its Index (CRC recomputed, by `indexBytes`): the crate's reader accepts the file with the same data, the strict
-decoder rejects it. -/
-theorem lax_accepts_strict_rejects_forged_index (c : Check) (fs : List Filter) (hfs : FiltersOk fs)
+/-- a forged Index is rejected by the crate's reader and by the strict decoder alike -/
+theorem forged_index_rejected_by_both (c : Check) (fs : List Filter) (hfs : FiltersOk fs)
     (blocks : List (List Nat × List Nat))
     (hb : ∀ b ∈ blocks, PayloadOk (readerDict fs) b.1 (applyFilters fs b.2) ∧ unfilter fs (applyFilters fs b.2) = b.2)
-    (rs : List (Nat × Nat)) (hlen : rs.length = blocks.length) (hn : rs.length < 2 ^ 63) (hrs : ∀ x ∈ rs, RecOk x)
+    (rs : List (Nat × Nat)) (hn : rs.length < 2 ^ 63) (hrs : ∀ x ∈ rs, RecOk x)
     (hne : rs ≠ recsOf c fs blocks) (n : Nat) (cap : Nat) (hcap : ((blocks.map (·.2)).flatten).length ≤ cap) :
-    Xz.decode true (forgedStream c fs blocks rs n) cap
-      = .ok (blocks.map (·.2)).flatten (forgedStream c fs blocks rs n).length (blocks.map (blkOf fs)).reverse ∧
+    Xz.decode true (forgedStream c fs blocks rs n) cap = .err .invalidData ∧
     decodeStrict (forgedStream c fs blocks rs n) cap = .err .invalidData :=
-  ⟨lax_accepts_forged true c fs hfs blocks hb rs hlen hn hrs n cap hcap,
+  ⟨reader_rejects_forged_index true c fs hfs blocks hb rs hn hrs hne n cap hcap,
    strict_rejects_forged c fs hfs blocks hb rs hn hrs n (Or.inl hne) cap hcap⟩
 
-/-! ## The boundary of S1 is real: a stream of the writer model that liblzma rejects
+/-! ## The boundary of S1 and of the round trip is real
 
 `write_stream_footer` computes `((index_size / 4) - 1) as u32` — a silent truncation when the Index is larger than
 2^34 bytes (more than about 2^33 blocks).  The model (`footerBytes`: `le 4 (indexLen / 4 - 1)`) has the same
-behaviour.  Such a stream is accepted by the crate's own reader and rejected by the strict decoder. -/
+behaviour.  Such a stream is rejected by the strict decoder and — since the reader compares the Backward Size with
+the Index — by the crate's own reader. -/
 
 /-- a block holding the single byte 0x41 as a stored LZMA2 chunk -/
 def tinyBlock : List Nat × List Nat := ([1, 0, 0, 0x41, 0], [0x41])
@@ -1006,13 +1109,10 @@ theorem index_ge_records (rs : List (Nat × Nat)) (h : ∀ x ∈ rs, RecOk x) : 
   simp only [List.length_cons, List.length_append]
   omega
 
-/-- **Counterexample to S1 without `StreamLimits`**: `N > 2^34` tiny blocks.  All hypotheses of
-`xz_roundtrip_blocks` hold (the crate's reader accepts), the strict decoder rejects. -/
+/-- **The writer's own output beyond the limit**: `N > 2^34` tiny blocks.  All 63-bit conditions hold; the
+crate's reader and the strict decoder both reject the stream (wrong Backward Size). -/
 theorem writer_index_overflow (c : Check) (N : Nat) (hN : 2 ^ 34 < N) (hN2 : N < 2 ^ 63) :
-    Xz.decode false (streamBytes c [.lzma2 4096] (List.replicate N tinyBlock)) N
-      = .ok ((List.replicate N tinyBlock).map (·.2)).flatten
-          (streamBytes c [.lzma2 4096] (List.replicate N tinyBlock)).length
-          ((List.replicate N tinyBlock).map (blkOf [.lzma2 4096])).reverse ∧
+    Xz.decode false (streamBytes c [.lzma2 4096] (List.replicate N tinyBlock)) N = .err .invalidData ∧
     decodeStrict (streamBytes c [.lzma2 4096] (List.replicate N tinyBlock)) N = .err .invalidData := by
   have hfs : FiltersOk [.lzma2 4096] := by decide
   have hb : ∀ b ∈ List.replicate N tinyBlock,
@@ -1021,7 +1121,7 @@ theorem writer_index_overflow (c : Check) (N : Nat) (hN : 2 ^ 34 < N) (hN2 : N <
     intro b hbm
     rw [List.eq_of_mem_replicate hbm]
     exact stored1_ok _ rfl 0x41
-  have hsz : SizesOk c [.lzma2 4096] (List.replicate N tinyBlock) := by
+  have hsz : SizesOk63 c [.lzma2 4096] (List.replicate N tinyBlock) := by
     refine ⟨by rw [List.length_replicate]; exact hN2, ?_⟩
     intro b hbm
     rw [List.eq_of_mem_replicate hbm, hdr_lzma2_len]
@@ -1030,23 +1130,23 @@ theorem writer_index_overflow (c : Check) (N : Nat) (hN : 2 ^ 34 < N) (hN2 : N <
     omega
   have hcap : (((List.replicate N tinyBlock).map (·.2)).flatten).length ≤ N := by
     rw [flatten_replicate_len]; simp [tinyBlock]
-  have hnl : ¬ StreamLimits c [.lzma2 4096] (List.replicate N tinyBlock) := by
-    rintro ⟨_, _, h3⟩
+  have hbig : ¬ (indexBytes (recsOf c [.lzma2 4096] (List.replicate N tinyBlock))).length ≤ 2 ^ 34 := by
     obtain ⟨r1, r2⟩ := recsOf_ok c [.lzma2 4096] _ hsz
     have := index_ge_records _ r2
     rw [r1, List.length_replicate] at this
     omega
-  have h1 := xz_roundtrip_blocks c [.lzma2 4096] hfs _ hb hsz [] N hcap
-  rw [List.append_nil] at h1
+  have hnl : ¬ StreamLimits c [.lzma2 4096] (List.replicate N tinyBlock) := fun h => hbig h.2.2
+  have h1 := xz_roundtrip_iff c [.lzma2 4096] hfs _ hb hsz [] N hcap
+  rw [List.append_nil, if_neg hbig] at h1
   exact ⟨h1, writer_overflow_rejected c [.lzma2 4096] hfs _ hb hsz hnl N hcap⟩
 
 /-! ## Non-vacuity: every theorem with hypotheses, instantiated -/
 
-/-- `StreamLimits` from `SizesOk` and small explicit bounds -/
+/-- `StreamLimits` from `SizesOk63` and small explicit bounds -/
 theorem streamLimits_of_sizes (c : Check) (fs : List Filter) (blocks : List (List Nat × List Nat))
-    (hsz : SizesOk c fs blocks) (hn : blocks.length ≤ 2 ^ 29) (hbb : (blocksBytes c fs blocks).length < 2 ^ 62)
+    (hsz : SizesOk63 c fs blocks) (hn : blocks.length ≤ 2 ^ 29) (hbb : (blocksBytes c fs blocks).length < 2 ^ 62)
     (hd : (blocksData blocks).length < 2 ^ 63) : StreamLimits c fs blocks := by
-  have hi := index_le_of_blocks c fs blocks hsz hn
+  have hi : (indexBytes (recsOf c fs blocks)).length ≤ 2 ^ 34 := indexFits_of_blocks c fs blocks hsz hn
   refine ⟨?_, hd, hi⟩
   rw [streamBytes_length]
   omega
@@ -1115,9 +1215,9 @@ example (x y z : Nat) :
     intro c u v
     exact ⟨Strm.ok_of _ _ _ (by decide) (hb2 u v) (two_blocks_limits c u v).sizesOk, two_blocks_limits c u v⟩
   have ok0 : (Strm.mk .sha256 [.delta 4, .lzma2 65536] []).Ok ∧ (Strm.mk .sha256 [.delta 4, .lzma2 65536] []).Limits := by
-    have hs : SizesOk .sha256 [.delta 4, .lzma2 65536] [] := ⟨by decide, by intro b hb; cases hb⟩
+    have hs : SizesOk .sha256 [.delta 4, .lzma2 65536] [] := sizesOk_nil _ _
     exact ⟨Strm.ok_of _ _ _ (by decide) (by intro b hb; cases hb) hs,
-      streamLimits_of_sizes _ _ _ hs (by simp) (by simp [blocksBytes]) (by simp [blocksData])⟩
+      streamLimits_of_sizes _ _ _ hs.1 (by simp) (by simp [blocksBytes]) (by simp [blocksData])⟩
   have := writer_output_strict_concat _ (ok2 .crc32 x x).1 (ok2 .crc32 x x).2
     [(8, Strm.mk .sha256 [.delta 4, .lzma2 65536] []),
      (4, Strm.mk .crc64 [.lzma2 4096] [([1, 0, 0, y, 0], [y]), ([1, 0, 0, z, 0], [z])])]
@@ -1140,12 +1240,10 @@ example : decodeStrict (streamBytes .crc32 [.lzma2 4096] (List.replicate (2 ^ 35
     = .err .invalidData :=
   (writer_index_overflow .crc32 (2 ^ 35) (by decide) (by decide)).2
 
-/-- `lax_accepts_strict_rejects_forged_index` instantiated: the record (21, 2) instead of (21, 1), any announced
-Index length `n`, any byte `x` -/
+/-- `forged_index_rejected_by_both` instantiated: the record (21, 2) instead of (21, 1), any announced Index
+length `n`, any byte `x` -/
 example (x n : Nat) :
-    Xz.decode true (forgedStream .crc32 [.lzma2 4096] [([1, 0, 0, x, 0], [x])] [(21, 2)] n) 1
-      = .ok [x] (forgedStream .crc32 [.lzma2 4096] [([1, 0, 0, x, 0], [x])] [(21, 2)] n).length
-          [blkOf [.lzma2 4096] ([1, 0, 0, x, 0], [x])] ∧
+    Xz.decode true (forgedStream .crc32 [.lzma2 4096] [([1, 0, 0, x, 0], [x])] [(21, 2)] n) 1 = .err .invalidData ∧
     decodeStrict (forgedStream .crc32 [.lzma2 4096] [([1, 0, 0, x, 0], [x])] [(21, 2)] n) 1 = .err .invalidData := by
   have hb : ∀ b ∈ [(([1, 0, 0, x, 0] : List Nat), ([x] : List Nat))],
       PayloadOk (readerDict [.lzma2 4096]) b.1 (applyFilters [.lzma2 4096] b.2) ∧
@@ -1156,9 +1254,8 @@ example (x n : Nat) :
     exact stored1_ok _ rfl x
   have hne : [(21, 2)] ≠ recsOf .crc32 [.lzma2 4096] [([1, 0, 0, x, 0], [x])] := by
     simp [recsOf, blockBytes_snd, hdr_lzma2_len, Check.size]
-  have := lax_accepts_strict_rejects_forged_index .crc32 [.lzma2 4096] (by decide) _ hb [(21, 2)] rfl (by decide)
+  exact forged_index_rejected_by_both .crc32 [.lzma2 4096] (by decide) _ hb [(21, 2)] (by decide)
     (by intro r hr; rw [List.mem_singleton] at hr; subst hr; exact ⟨by decide, by decide, by decide⟩) hne n 1 (by simp)
-  simpa using this
 
 #print axioms writer_output_strict
 #print axioms writer_output_strict'
@@ -1169,14 +1266,16 @@ example (x n : Nat) :
 #print axioms writer_index_overflow
 #print axioms strict_implies_lax
 #print axioms lax_not_strict_witness
-#print axioms lax_not_strict_witness_backward
+#print axioms lax_not_strict_witness_vli
+#print axioms lax_not_strict_witness_index_vli
+#print axioms forged_witnesses_rejected
 #print axioms witness_base_accepted
-#print axioms lax_accepts_forged
 #print axioms strict_rejects_forged
-#print axioms lax_accepts_strict_rejects_forged_index
+#print axioms forged_index_rejected_by_both
 #print axioms limitsOk_iff
 #print axioms streamLimits_of
 #print axioms headerStrict_ok
 #print axioms decodeStrict_stream
+#print axioms parseIndex_size
 
 end LzmaVerif.XzStrict
